@@ -9,7 +9,7 @@ from mc import core, ghost
 
 PROPERTY = 'C04'
 LEVEL = 'model_checking'
-RULE = ('every program = (1-3 handlers of event e with distinct priorities drawn from 12 shapes: return v / return None / raise / '
+RULE = ('every program = (0-3 handlers of event e with distinct priorities drawn from 12 shapes: return v / return None / raise / '
         'generator yielding 0-2 values (None or not) / generator raising at step 0 or 1) x (success, failure, notify, '
         'success_channels) x optional nested event fired by a handler; each program executed once, driven by tick() to '
         'quiescence; non-trivial = at least two different handler shapes or a raising/generator handler; distinct = distinct program')
@@ -48,14 +48,14 @@ NESTED_SHAPES = [0, 2, 5, 10]   # R, X, Gv, GX1 for the nested event's handlers
 def programs(tier):
     """yield (handler shape indices tuple, flag index, nested)   nested = None | (which handler fires f, f-handler shapes)"""
     maxh = 3
-    for n in range(1, maxh + 1):
+    for n in range(0, maxh + 1):   # n = 0: nobody handles the event at all
         for hs in itertools.product(range(NSH), repeat=n):
             for fi in range(len(FLAGS)):
                 if tier == 'quick' and n == 3 and FLAGS[fi]['notify']:
                     continue
                 yield hs, fi, None
     # nested: a plain handler (shape R or N) additionally fires f, whose handlers have their own shapes
-    nest_h = list(itertools.product(NESTED_SHAPES, repeat=1)) + list(itertools.product(NESTED_SHAPES, repeat=2))
+    nest_h = [()] + list(itertools.product(NESTED_SHAPES, repeat=1)) + list(itertools.product(NESTED_SHAPES, repeat=2))
     maxn = 2 if tier == 'quick' else 3
     for n in range(1, maxn + 1):
         for hs in itertools.product(range(NSH), repeat=n):
@@ -90,7 +90,12 @@ def build(program):
 
 def execute(program):
     hs, fi, nested = program
-    w = ghost.World(build(program))
+    # named observers only, so that an event without handlers really has none
+    ghost.World.observe_names = ['e_success', 'e_failure', 'f_success', 'f_failure', 'exception', 'e_value_changed']
+    try:
+        w = ghost.World(build(program))
+    finally:
+        ghost.World.observe_names = None
     flags = FLAGS[fi]
     e = w.fire('e', flags)
     s = w.fire('s')
@@ -135,7 +140,7 @@ def judge_event(w, eid, hids, flags, shapes_of, bad, tag):
         bad.append((tag + ('success-after-failure' if raises and succ else 'success-count'),
                     '%d %s_success event(s), expected %d %s' % (len(succ), name, exps, what)))
     elif succ:
-        last = max(i for i, x in enumerate(log) if x[0] in ('enter', 'exit', 'step', 'val') and x[2] == eid)
+        last = max([i for i, x in enumerate(log) if x[0] in ('enter', 'exit', 'step', 'val') and x[2] == eid] or [-1])
         if succ[0] < last:
             bad.append((tag + 'success-early', '%s_success dispatched before the last handler activity' % name))
 
